@@ -251,6 +251,29 @@ for nf in ([1, 2, 3] if Q else [1, 2, 3, 4, 5]):
                 if not np.allclose(res[k], want, rtol=0, atol=1e-9 * np.max(np.abs(sub[k]))):
                     chk.violation("data:freq_interp", "ScatFromData is not linear in frequency between its samples",
                                   {"numfreq": nf, "n": n, "key": k, "frequency": fr, "frequencies": freqs})
+        # HISTORY on the same object: all keys at one frequency, then a SUBSET of the keys at another frequency (what a
+        # model run restricted to some views does), then the other keys at that frequency: as from a fresh object
+        if len(keys) >= 2 and nf >= 2:
+            f_a = float(freqs[0])
+            f_b = float(0.5 * (freqs[0] + freqs[1])) if rng.random() < 0.5 else float(freqs[1])
+            first, last = {keys[0]}, {keys[-1]}
+            with warnings.catch_warnings():
+                warnings.simplefilter("ignore")
+                obj(inc_g, out_g, f_a)
+                if rng.random() < 0.5:
+                    obj(inc_g, out_g, f_b, to_compute=first)
+                else:
+                    obj.as_multi_freq_matrices(np.array([f_b]), n, to_compute=first)
+                got_h = obj(inc_g, out_g, f_b, to_compute=last)
+                fresh_h = scat.ScatFromData.from_dict(freqs, sub)(inc_g, out_g, f_b, to_compute=last)
+            evaluations += 1
+            chk.count(data_history="all keys @f_a, subset @f_b, other key @f_b")
+            k_ = keys[-1]
+            if k_ not in got_h or not np.allclose(got_h[k_], fresh_h[k_], rtol=0, atol=1e-9 * np.max(np.abs(sub[k_]))):
+                chk.violation("data:history", "ScatFromData asked for a key at a frequency at which it was first asked for OTHER keys "
+                              "returns the values of the previous frequency",
+                              {"numfreq": nf, "n": n, "keys": keys, "frequencies": freqs, "f_a": f_a, "f_b": f_b, "asked_first_at_f_b": sorted(first),
+                               "asked_then": k_, "got": got_h.get(k_), "fresh_object": fresh_h[k_]})
         # MAT round trip
         import scipy.io as sio
         for shape in ("row", "col", "flat"):
